@@ -218,3 +218,45 @@ func VerifConcurrentRegister() {
 	verifAssert(c.sent[id1] == hrpc.Call(g1) && c.sent[id2] == hrpc.Call(g2), "each id maps to its own call")
 	verifReach("registered")
 }
+
+// VerifCompressedCells: with cellblock compression configured, the cells handed to a caller
+// stay that caller's: a later exchange on the same connection (which may reuse pooled buffers)
+// does not change what an earlier caller holds.
+func VerifCompressedCells() {
+	conn := &vConn{}
+	c := vNewClient(conn, 1)
+	codec := &vCodec{chunk: 64, maxEnc: 3}
+	c.compressor = &compressor{Codec: codec}
+	reg := vReg("t,,1")
+	var results []hrpc.RPCResult
+	for i := 0; i < 2; i++ {
+		g := vGet(context.Background(), vKeys[i], reg)
+		verifAssert(c.trySend(g) == nil, "send")
+		// the server's compressed cellblock: one block, one chunk
+		plain := vTagCell(byte('A' + i))
+		enc, _ := codec.Encode(plain, nil)
+		for _, p := range codec.pairs[:len(codec.pairs)-1] {
+			verifAssume(!vBytesEq(p.enc, enc)) // a lossless codec: different inputs, different encodings
+		}
+		stream := vPutU32(nil, uint32(len(plain)))
+		stream = vPutU32(stream, uint32(len(enc)))
+		stream = append(stream, enc...)
+		h := &pb.ResponseHeader{CallId: proto.Uint32(uint32(i + 1)),
+			CellBlockMeta: &pb.CellBlockMeta{Length: proto.Uint32(uint32(len(stream)))}}
+		body := vAppendDelimited(nil, vWire(h, false))
+		body = vAppendDelimited(body, vWire(&pb.GetResponse{Result: &pb.Result{AssociatedCellCount: proto.Int32(1)}}, false))
+		body = append(body, stream...)
+		err := c.receive(&vReader{b: vFrame(body, uint32(len(body)))})
+		vPending, vUnmarshalFails = nil, nil
+		verifAssert(err == nil, "a conforming compressed response is processed")
+		verifAssert(vResults(g) == 1, "the caller gets its result")
+		results = append(results, <-g.ResultChan())
+	}
+	for i, r := range results {
+		verifAssert(r.Error == nil, "no error")
+		cs := vResultCells(r.Msg)
+		verifAssert(len(cs) == 1 && len(cs[0].Row) == 1 && cs[0].Row[0] == byte('A'+i),
+			"a caller still holds the cells of its own response after later exchanges")
+	}
+	verifReach("held")
+}
